@@ -185,3 +185,29 @@ Definition fails (x : nat * bytes * option err) : bool :=
   let '(k, d, oe) := x in is_nil d && (Nat.eqb k 0 || is_some oe).
 
 Definition is_close (o : op) : bool := match o with OpClose => true | _ => false end.
+
+(* zero-length reads the script still has before its terminal *)
+Fixpoint empties (l : list rstep) : nat :=
+  match l with
+  | [] => 0
+  | (_, Some _) :: _ => 0
+  | ([], None) :: r => S (empties r)
+  | (_ :: _, None) :: r => empties r
+  end.
+
+(* the caller reads on with a k-byte destination until a terminal condition is returned (at
+   most fuel times): all the bytes obtained, and that condition *)
+Fixpoint drain (fuel k : nat) (s : st) : bytes * option err :=
+  match fuel with
+  | O => ([], None)
+  | S f =>
+    match do_read k s with
+    | (ORead d (Some e), _) => (d, Some e)
+    | (ORead d None, s') => let '(ds, oe) := drain f k s' in (d ++ ds, oe)
+    | _ => ([], None)
+    end
+  end.
+
+(* bytes returned by the reads of a history *)
+Fixpoint read_bytes (l : list (bytes * option err)) : bytes :=
+  match l with [] => [] | (d, _) :: r => d ++ read_bytes r end.
